@@ -14,7 +14,7 @@ def main():
     sh("git -C /repo worktree add -q %s HEAD" % wt)
     try:
         demos = [f for f in glob.glob(os.path.join(d, "demo*")) if not f.endswith(("demo_args", "demo_setup.sh"))]
-        demo = [f for f in demos if f.endswith((".c", ".cpp", ".sh", ".py", ".java"))]
+        demo = sorted([f for f in demos if f.endswith((".c", ".cpp", ".sh", ".py", ".java"))], key=lambda f: not f.endswith(".sh"))     # a driver script wins
         if not demo:
             print("no demo source"); return 2
         demo = demo[0]
